@@ -17,7 +17,7 @@ def one(job):
         return None
     tmp = tempfile.mkdtemp(prefix='kzmx-')
     try:
-        shutil.copytree('/repo/v2', tmp + '/v2')
+        subprocess.run('git -C /repo archive HEAD v2 | tar -x -C ' + tmp, shell=True, check=True)
         for pth in (ref, sd + 'patch.diff'):
             r = subprocess.run(['patch', '-p2', '-s', '-f', '-F', '1', '-d', tmp + '/v2', '-i', pth], capture_output=True, text=True)
             if r.returncode != 0:
